@@ -9,12 +9,21 @@ use crate::{
 use byteorder::{LittleEndian, ReadBytesExt};
 use std::path::Path;
 
-pub fn get_current_version(folder: &std::path::Path) -> crate::Result<VersionId> {
-    use byteorder::{LittleEndian, ReadBytesExt};
+fn get_current_version_with_checksum(
+    folder: &std::path::Path,
+) -> crate::Result<(VersionId, Checksum)> {
+    let mut file = std::fs::File::open(folder.join(CURRENT_VERSION_FILE))?;
 
-    std::fs::File::open(folder.join(CURRENT_VERSION_FILE))
-        .and_then(|mut f| f.read_u64::<LittleEndian>())
-        .map_err(Into::into)
+    let id = file.read_u64::<LittleEndian>()?;
+    let checksum = file.read_u128::<LittleEndian>()?;
+
+    let checksum_type = file.read_u8()?;
+
+    if checksum_type != 0 {
+        return Err(crate::Error::InvalidTag(("ChecksumType", checksum_type)));
+    }
+
+    Ok((id, Checksum::from_raw(checksum)))
 }
 
 pub struct RecoveredTable {
@@ -32,8 +41,22 @@ pub struct Recovery {
 }
 
 pub fn recover(folder: &Path) -> crate::Result<Recovery> {
-    let curr_version_id = get_current_version(folder)?;
+    let (curr_version_id, expected_checksum) = get_current_version_with_checksum(folder)?;
     let version_file_path = folder.join(format!("v{curr_version_id}"));
+
+    // NOTE: The "current" file stores the checksum of the version file it points to.
+    // The version file's sections are not protected otherwise, and a damaged "current" file
+    // may point to another (older) version file that still exists - so validate it
+    {
+        let bytes = std::fs::read(&version_file_path)?;
+        let checksum = Checksum::from_raw(xxhash_rust::xxh3::xxh3_128(&bytes));
+
+        checksum.check(expected_checksum).inspect_err(|_| {
+            log::error!(
+                "checksum of version file #{curr_version_id} does not match the checksum stored in the {CURRENT_VERSION_FILE:?} file",
+            );
+        })?;
+    }
 
     // TODO: maybe validate current version using the checksum in "current"
 
